@@ -154,6 +154,7 @@ func runC10(p *C10Plan) (*stats.Case, error) {
 	restartsSeen := map[string]int{}
 	restarts := 0
 	wsChecks := 0
+	lookAlikeCreds := 0
 	for i, op := range p.Ops {
 		where := fmt.Sprintf("op %d %+v", i, op)
 		switch op.Kind {
@@ -216,6 +217,10 @@ func runC10(p *C10Plan) (*stats.Case, error) {
 			}
 		case "http":
 			tok := pick(op.Tok)
+			if op.Mut != 0 && op.Mut != 8 { // (a line feed cannot travel in a header value)
+				tok = lookAlike(tok, op.Mut)
+				lookAlikeCreds++
+			}
 			if err := checkHTTP(tok, op.Rt, where); err != nil {
 				return nil, err
 			}
@@ -227,6 +232,10 @@ func runC10(p *C10Plan) (*stats.Case, error) {
 			}
 		case "ws":
 			tok := pick(op.Tok)
+			if op.Mut != 0 {
+				tok = lookAlike(tok, op.Mut)
+				lookAlikeCreds++
+			}
 			done, err := checkWS(tok, where)
 			if err != nil {
 				return nil, err
@@ -274,7 +283,7 @@ func runC10(p *C10Plan) (*stats.Case, error) {
 			wsChecks++
 		}
 	}
-	cl := map[string]int64{"revocations_of_look_alikes": int64(lookAlikes), "sequences": 1, "ops": int64(len(p.Ops)), "tokens_issued": int64(len(issued)), "ws_checks": int64(wsChecks), "restarts": int64(restarts),
+	cl := map[string]int64{"revocations_of_look_alikes": int64(lookAlikes), "look_alike_credentials_presented": int64(lookAlikeCreds), "sequences": 1, "ops": int64(len(p.Ops)), "tokens_issued": int64(len(issued)), "ws_checks": int64(wsChecks), "restarts": int64(restarts),
 		"with_create_revoke_auth": b2i(sawCRA), "with_restart_between": b2i(restartBetween), "sparse_presentation": b2i(p.Sparse)}
 	return &stats.Case{Sig: stats.Sig(fmt.Sprint(p.Ops)), Nontrivial: sawCRA && restartBetween, Classes: cl, Sample: p}, nil
 }
@@ -308,6 +317,12 @@ func lookAlike(tok string, mut int) string {
 			return tok[:3] + "_" + tok[4:]
 		}
 		return "_"
+	case 7:
+		return "\t" + tok
+	case 8:
+		return tok + "\n"
+	case 9:
+		return " " + tok
 	default:
 		if len(tok) > 8 {
 			return "%" + tok[len(tok)-8:]
@@ -336,7 +351,10 @@ var propC10 = Prop[*C10Plan]{
 			}
 			op.Rt = rapid.IntRange(0, 3).Draw(t, "rt")
 			if op.Kind == "revoke" && rapid.IntRange(0, 2).Draw(t, "mutk") == 0 {
-				op.Mut = rapid.IntRange(1, 6).Draw(t, "mut")
+				op.Mut = rapid.IntRange(1, 9).Draw(t, "mut")
+			}
+			if (op.Kind == "http" || op.Kind == "ws") && rapid.IntRange(0, 3).Draw(t, "mutc") == 0 {
+				op.Mut = rapid.IntRange(1, 9).Draw(t, "mutcv")
 			}
 			p.Ops = append(p.Ops, op)
 		}
